@@ -16,6 +16,15 @@
 (*     determinant fits,                                                   *)
 (* and prints one JSON line {id, m, x, rho2, rho2_0, kdim, galerkin} that  *)
 (* the conformance harness replays through the real gmres.                 *)
+(*                                                                         *)
+(* Catalog cases with wide = TRUE are badly scaled real systems (entries   *)
+(* up to 10^7, condition numbers 10^2 .. 10^7): their exact optima do not  *)
+(* fit 32-bit integers and are evaluated with the wide integers of         *)
+(* LeastSquares.tla (WGmresOpt: Gram-determinant ratio for rho2_m, Cramer  *)
+(* for x_m).  The same facts are checked on them (W* invariants): rho2_m   *)
+(* <= rho2_0, monotone, rho2_m = 0 <=> m >= KDim, the first-order          *)
+(* optimality certificate, and - independently of the determinant ratio -  *)
+(* ||b - A x_m||^2 = rho2_m evaluated on the exported iterate.             *)
 (***************************************************************************)
 EXTENDS LeastSquares, GmresCatalog, Json, TLC
 
@@ -26,9 +35,11 @@ vars == <<c, m, o, prev>>
 
 Case == GCases[c]
 N == Case.A.r
+Wide == Case.wide
 
 R0 == MSub(Case.b, MMul(Case.A, Case.x0))
 OptOf(cc, mm) == GmresOpt(GCases[cc].A, GCases[cc].b, GCases[cc].x0, mm)
+WOptOf(cc, mm) == WGmresOpt(GCases[cc].A, GCases[cc].b, GCases[cc].x0, mm)
 Gal(mm) == GalerkinOpt(Case.A, Case.b, Case.x0, mm)
 KD == KDim(Case.A, R0)
 
@@ -36,24 +47,66 @@ Init == /\ c \in 1..Len(GCases) /\ m = 0
         /\ o = [x |-> GCases[c].x0, rho2 |-> QInt(0), j |-> 0]      \* placeholder: m = 0 is evaluated by Opt(0)
         /\ prev = QInt(0)
 Next == /\ m < N + 2 /\ m' = m + 1 /\ c' = c
-        /\ o' = OptOf(c, m + 1)
-        /\ prev' = IF m = 0 THEN Norm2(R0) ELSE o.rho2
+        /\ o' = IF GCases[c].wide THEN WOptOf(c, m + 1) ELSE OptOf(c, m + 1)
+        /\ prev' = IF GCases[c].wide THEN (IF m = 0 THEN WOptOf(c, 0) ELSE o)
+                   ELSE IF m = 0 THEN Norm2(R0) ELSE o.rho2
 Spec == Init /\ [][Next]_vars
 Opt(mm) == IF mm = 0 THEN GmresOpt(Case.A, Case.b, Case.x0, 0) ELSE o
+WOpt(mm) == IF mm = 0 THEN WOptOf(c, 0) ELSE o
 
+---------------------------------------------------------------------------
+(* wide (badly scaled) cases *)
+WA == WOfMat(Case.A)
+Wb == WVecOfMat(Case.b)
+Wx0 == WVecOfMat(Case.x0)
+WR0 == WVecSub(Wb, WMatVec(WA, Wx0))
+WKD == WKDim(WA, WR0)
+WRho0 == WDot(WR0, WR0)
+
+WCatalogOK ==
+    /\ Case.A.r = Case.A.c /\ Case.A.d = 1 /\ Case.b.d = 1 /\ Case.x0.d = 1
+    /\ Case.b.r = N /\ Case.b.c = 1 /\ Case.x0.r = N /\ Case.x0.c = 1
+    /\ MIsReal(Case.A) /\ MIsReal(Case.b) /\ MIsReal(Case.x0)
+    /\ ~WIsZero(WDet(WA))
+    /\ Case.kdim = WKD
+\* n2_m / d2_m <= ||r0||^2 with d2_m > 0
+WResidualBound == LET w == WOpt(m) IN w.d2.s = 1 /\ w.n2.s >= 0 /\ WLeq(w.n2, WMul(WRho0, w.d2))
+\* n2_m / d2_m <= n2_(m-1) / d2_(m-1)
+WMonotone == m >= 1 => WLeq(WMul(o.n2, prev.d2), WMul(prev.n2, o.d2))
+WZeroIffExhausted == WIsZero(WOpt(m).n2) <=> (m >= WKD)
+WPrefixIsKrylovDim == WOpt(m).j = Min2(m, WKD)
+\* on the exported iterate x_m = xn / xd: the residual rn / xd is orthogonal to A K_j (first-order optimality,
+\* independent of Cramer's rule) and its squared norm is the determinant ratio: |rn|^2 * d2 = n2 * xd^2
+WCertificates ==
+    LET w == WOpt(m)
+        rn == WVecSub(WVecScale(w.xd, Wb), WMatVec(WA, w.xn))
+    IN /\ w.xd.s = 1
+       /\ WMul(WDot(rn, rn), w.d2) = WMul(w.n2, WMul(w.xd, w.xd))
+       /\ (w.j >= 1 => WVecIsZero(WMatVec(WTr(WMatMul(WA, WKrylov(WA, WR0, w.j))), rn)))
+WWellFormed ==
+    LET w == WOpt(m) IN WOk(w.n2) /\ WOk(w.d2) /\ WOk(w.xd) /\ \A i \in 1..N: WOk(w.xn[i])
+WOut ==
+    LET w == WOpt(m)
+    IN [id |-> Case.id, m |-> m, n |-> N, wide |-> TRUE, kdim |-> WKD, j |-> w.j,
+        n2 |-> WFlat(w.n2), d2 |-> WFlat(w.d2), r0 |-> WFlat(WRho0),
+        xn |-> [i \in 1..N |-> WFlat(w.xn[i])], xd |-> WFlat(w.xd)]
+
+---------------------------------------------------------------------------
 CatalogOK ==
+    IF Wide THEN WCatalogOK ELSE
     /\ Case.A.r = Case.A.c /\ Case.A.d = 1 /\ Case.b.d = 1 /\ Case.x0.d = 1
     /\ Case.b.r = N /\ Case.b.c = 1 /\ Case.x0.r = N /\ Case.x0.c = 1
     /\ ~MIsSingular(Case.A)
     /\ Case.kdim = KD                      \* the harness's own exact pre-computation agrees
 
-ResidualBound == QLeqNN(Opt(m).rho2, Norm2(R0))
-Monotone == m >= 1 => QLeqNN(o.rho2, prev)
-ZeroIffExhausted == QIsZero(Opt(m).rho2) <=> (m >= KD)
-PrefixIsKrylovDim == Opt(m).j = Min2(m, KD)
+ResidualBound == IF Wide THEN WResidualBound ELSE QLeqNN(Opt(m).rho2, Norm2(R0))
+Monotone == IF Wide THEN WMonotone ELSE (m >= 1 => QLeqNN(o.rho2, prev))
+ZeroIffExhausted == IF Wide THEN WZeroIffExhausted ELSE (QIsZero(Opt(m).rho2) <=> (m >= KD))
+PrefixIsKrylovDim == IF Wide THEN WPrefixIsKrylovDim ELSE Opt(m).j = Min2(m, KD)
 
 \* first-order optimality of the exported iterates (independent of the way they were computed)
 Certificates ==
+    IF Wide THEN WCertificates /\ WWellFormed ELSE
     LET j == Min2(m, KD) IN
     j >= 1 =>
       LET K == Krylov(Case.A, R0, j)
@@ -65,6 +118,7 @@ Certificates ==
 
 \* det(K^H K) # 0  <=>  some maximal minor # 0, evaluated where the Gram determinant fits in 32 bits
 RankTestsAgree ==
+    Wide \/
     \A j \in 1..Min2(N, 3):
        LET K == Krylov(Case.A, R0, j) IN
        (~MIsZero(R0) /\ EntriesWithin(K, IF j <= 2 THEN 30 ELSE 6))
@@ -75,5 +129,5 @@ Out ==
         g == Gal(m)
     IN [id |-> Case.id, m |-> m, n |-> N, x |-> oo.x, rho2 |-> oo.rho2, rho2_0 |-> Norm2(R0), kdim |-> KD,
         j |-> oo.j, gdef |-> g.def, gx |-> g.x, grho2 |-> g.rho2]
-Emit == PrintT(ToJson(Out))
+Emit == PrintT(ToJson(IF Wide THEN WOut ELSE Out))
 =============================================================================
